@@ -24,7 +24,13 @@ MNODE = 'cstl_map_node'
 
 def run(m, rep, tier):
     p1 = rep.rule('P1', 'insert: found -> 1 untouched; allocation failed -> -1, end iterator; new -> one tree insert, 0', floor=1)
-    f = m.pfn('cstl_map_insert')
+    # map.c with its private helpers inlined, except the lookups, the iterator builders and the end-iterator setter
+    # (recognised by effect): "allocate the node" and "allocate and link it" are the same thing to the rules
+    pm0 = m.plain.get('map')
+    fmod0 = m.focus('map', {g.name for g in pm0.defined() if _map_finder(m, g.name) or _iter_builder(m, g.name) is not None or _end_setter(m, g.name)}) if pm0 is not None else None
+    f = fmod0.fn('cstl_map_insert') if fmod0 is not None else None
+    if f is not None and f.decl:
+        f = None
     if f is None:
         p1.undecided('cstl_map_insert', 'not in the model')
     else:
@@ -34,7 +40,7 @@ def run(m, rep, tier):
     # map.c with its private helpers inlined, except the lookups and the iterator builders (recognised by effect): "unlink and release the node" may
     # be a helper shared by erase and erase-by-iterator
     pm = m.plain.get('map')
-    fmod = m.focus('map', {g.name for g in pm.defined() if _map_finder(m, g.name) or _iter_builder(m, g.name) is not None}) if pm is not None else None
+    fmod = m.focus('map', {g.name for g in pm.defined() if _map_finder(m, g.name) or _iter_builder(m, g.name) is not None or _end_setter(m, g.name)}) if pm is not None else None
     f = fmod.fn('cstl_map_erase') if fmod is not None else None
     if f is None or f.decl:
         p2.undecided('cstl_map_erase', 'not in the model')
@@ -76,8 +82,8 @@ def run(m, rep, tier):
         p3.undecided('map-node', 'no writer of cstl_map_node.key/val found')
 
     p4 = rep.rule('P4', 'the insert hint is the would-be parent reported by the find on the same key', floor=1)
-    f = m.pfn('cstl_map_insert')
-    if f is not None:
+    f = fmod0.fn('cstl_map_insert') if fmod0 is not None else None
+    if f is not None and not f.decl:
         check_hint(m, f, p4)
 
     # ---- P6: (function pointer, context) pairing ---------------------------------------------
@@ -123,6 +129,12 @@ def check_insert(m, f, rule):
                 return (na, ins_nodes + (ps.lookup(_k(strip_bitcasts(f, ins.o[1]))),), it)
             if ins in iters:
                 return (na, ins_nodes, ps.lookup(_k(strip_bitcasts(f, ins.o[_iter_builder(m, ins.callee)]))))
+            if ins.callee and _end_setter(m, ins.callee) and any(isinstance(o, str) and strip_bitcasts(f, o) == '$3' for o in ins.o):
+                return (na, ins_nodes, 'end')
+            if (ins.callee or '').startswith('llvm.memcpy') and resolve_addr(f, ins.o[0]).root == '$3':
+                src = f.get(strip_bitcasts(f, resolve_addr(f, ins.o[1]).root)) if isinstance(resolve_addr(f, ins.o[1]).root, str) else None
+                if src is not None and src.op == 'call' and src.callee == 'cstl_map_iterator_end':
+                    return (na, ins_nodes, 'end')
         return st
 
     try:
@@ -161,7 +173,7 @@ def check_insert(m, f, rule):
                     bad.add('a failed allocation still leads to a tree insert')
                 if rv != (1 << 32) - 1:
                     bad.add('a failed allocation returns %s instead of -1' % rv)
-                if iter_known is True and it not in ('null',) + tuple(a.ref for a in allocs):
+                if iter_known is True and it not in ('null', 'end') + tuple(a.ref for a in allocs):
                     bad.add('after a failed allocation the iterator is not the end iterator')
             else:
                 bad.add('a path with the key absent returns at %s without the allocation outcome being decided' % ret.loc())
@@ -186,6 +198,22 @@ def _iter_builder(m, name):
             if isinstance(v, str) and v.startswith('$') and v[1:].isdigit():
                 return int(v[1:])
     return None
+
+
+def _end_setter(m, name):
+    """a private function of map.c that copies the map's end iterator into the iterator it is given"""
+    g = m.pfn(name)
+    if g is None or not (g.file or '').endswith('map.c') or g.linkage != 'internal':
+        return False
+    ends = [c for c in g.calls('cstl_map_iterator_end')]
+    if not ends:
+        return False
+    for c in g.all_insts():
+        if c.op == 'call' and (c.callee or '').startswith('llvm.memcpy'):
+            d, s_ = resolve_addr(g, c.o[0]), resolve_addr(g, c.o[1])
+            if isinstance(d.root, str) and d.root.startswith('$') and isinstance(s_.root, str) and strip_bitcasts(g, s_.root) in {e.ref for e in ends}:
+                return True
+    return False
 
 
 def _map_finder(m, name):
